@@ -97,7 +97,9 @@ def cases(tier, seed):
     for sizes in ((1, 1), (2, 1), (1, 2), (1, 1, 1)):
         for defect in ("scaled", "overlap", "nonorthogonal", "biorth-broken", "RL-in-hermitian", "both-args", "fd-custom-solver", "fd-implicit", "ndarray-fd-multiblock",
                        "overlap-e0", "overlap-e0-pairs", "RL-in-hermitian-last", "RL-in-hermitian-last-dual"):
-            for rep in ("dense", "sympy"):
+            for rep in ("dense", "sympy", "csr_array", "csc_array", "coo_array", "csr_matrix"):
+                if rep not in ("dense", "sympy") and defect not in ("scaled", "overlap", "nonorthogonal", "biorth-broken", "overlap-e0"):
+                    continue  # the sparse containers matter for the eigenvector validation only
                 out.append(dict(sizes=list(sizes), cls="options", defect=defect, repr=rep, total=2, hermitian=defect != "biorth-broken"))
     # (g) non-Hermitian symbolic term at each order in Hermitian mode
     for order in (0, 1, 2, 3):
@@ -414,6 +416,11 @@ def run_options(case):
     else:
         H = [np.diag(np.array(E, float)), h1]
         conv = lambda m: np.array(m, dtype=complex)  # noqa: E731
+        if case["repr"] not in ("dense", "sympy"):
+            from scipy import sparse
+
+            cls_ = getattr(sparse, case["repr"])
+            conv = lambda m: cls_(np.array(m, dtype=complex))  # noqa: E731
     expect = REJECTIONS
     if defect == "scaled":
         vecs[0] = vecs[0] * 2
